@@ -259,7 +259,7 @@ func genPowers(t *rapid.T, n int) []int64 {
 func genBlocks(t *rapid.T) []BID {
 	k := rapid.IntRange(1, 4).Draw(t, "nblocks")
 	var idx []int
-	if rapid.IntRange(0, 11).Draw(t, "collide") == 0 {
+	if rapid.IntRange(0, 24).Draw(t, "collide") == 0 {
 		idx = []int{6, 7}
 	}
 	for len(idx) < k {
@@ -1074,7 +1074,7 @@ func genMut(t *rapid.T, n, nb int) Mut {
 
 func genSpec(t *rapid.T, n, nb, fav int, mutP int) VoteSpec {
 	s := VoteSpec{Val: rapid.IntRange(0, n-1).Draw(t, "val")}
-	if rapid.IntRange(0, 99).Draw(t, "favour") < 55 {
+	if rapid.IntRange(0, 99).Draw(t, "favour") < 62 {
 		s.Block = fav
 	} else {
 		s.Block = rapid.IntRange(-1, nb-1).Draw(t, "blockIdx")
@@ -1088,6 +1088,14 @@ func genSpec(t *rapid.T, n, nb, fav int, mutP int) VoteSpec {
 	return s
 }
 
+// genFav picks the block most votes of the stream go to (the nil block one time in five).
+func genFav(t *rapid.T, nb int) int {
+	if rapid.IntRange(0, 4).Draw(t, "favNil") == 0 {
+		return -1
+	}
+	return rapid.IntRange(0, nb-1).Draw(t, "favourite")
+}
+
 var peers = []string{"", "p1", "p2", "p3"}
 
 func genVSCase(t *rapid.T) VSCase {
@@ -1099,7 +1107,7 @@ func genVSCase(t *rapid.T) VSCase {
 	c.Type = rapid.SampledFrom([]int{1, 2, 2}).Draw(t, "type")
 	c.Blocks = genBlocks(t)
 	nb := len(c.Blocks)
-	fav := rapid.IntRange(-1, nb-1).Draw(t, "favourite")
+	fav := genFav(t, nb)
 	ne := rapid.OneOf(rapid.IntRange(1, 60), rapid.IntRange(1, 3*n+4)).Draw(t, "nevents")
 	for i := 0; i < ne; i++ {
 		k := rapid.IntRange(0, 99).Draw(t, "op")
@@ -1266,7 +1274,7 @@ func genHVSCase(t *rapid.T) HVSCase {
 	c.Height = rapid.SampledFrom([]int64{1, 5}).Draw(t, "height")
 	c.Blocks = genBlocks(t)
 	nb := len(c.Blocks)
-	fav := rapid.IntRange(-1, nb-1).Draw(t, "favourite")
+	fav := genFav(t, nb)
 	hotRound := int64(rapid.IntRange(0, 3).Draw(t, "hotRound"))
 	hotType := rapid.IntRange(1, 2).Draw(t, "hotType")
 	genRound := func() int64 {
